@@ -55,6 +55,10 @@ def pair_fab(cls, rnd):
     return (x, near(rnd, x, k)), True
 
 
+NQ_DECADES = [1, 1.5, 2, 2.25, 2.5, 2.75, 3, 3.5, 4, 5, 6, 8, 10, 12]
+_NQ = 0
+
+
 def pair_quot(cls, rnd):
     if cls == "generic":
         x = dom(rnd, 1e-4, 1e4)
@@ -65,6 +69,12 @@ def pair_quot(cls, rnd):
         return (x, x), True
     if cls == "equalQuarter":
         return (0.25, 0.25), True
+    if cls == "equalNearQuarter":                         # equal scales on either side of the special-cased 1/4,
+        global _NQ                                        # distances stratified by (half-)decades
+        u = NQ_DECADES[_NQ % len(NQ_DECADES)]
+        _NQ += 1
+        x = 0.25 * (1 + rnd.choice([-1, 1]) * rnd.uniform(0.8, 1.25) * 10.0 ** (-u))
+        return (x, x), True
     if cls == "equalLarge":
         x = dom(rnd, 1e3, 1e6)
         return (x, x), True
@@ -203,7 +213,7 @@ def run(tier, seed):
         g = 0
         for c in cs:
             fn, cls = c["fn"], c["cls"]
-            for _ in range(n):
+            for _ in range(n * 5 if cls == "equalNearQuarter" else n):
                 if fn in ("Fa", "Fb"):
                     args, ok = pair_fab(cls, rnd)
                 elif fn in ("FPZ", "FSZ", "FCWl"):
